@@ -598,6 +598,13 @@ func (m *Module) genInjector(r *rand.Rand, k Knobs, p *Pkg, j int) *Injector {
 		if r.IntN(8) == 0 {
 			name = "_"
 		}
+		if k.Adversary && j > 0 && name != "_" && m.Types[i].Kind == "func" {
+			// a CALLABLE parameter named like the generated cleanup local, in a later injector of the package: this
+			// injector's cleanup locals are renamed (cleanup2, ...) while its neighbours keep the default names, so
+			// text shared between injectors calls the parameter (seeded change C03-12). No PRNG draw: every other
+			// generated shape stays what it was.
+			name = "cleanup"
+		}
 		if name != "_" && usedNames[name] {
 			name = fmt.Sprintf("a%d", n)
 		}
